@@ -113,37 +113,16 @@ Definition racyb (a b : op) (f : field) : bool :=
 Definition lockset_holds : Prop :=
   forall a b f, concurrent_allowed a b = true -> racyb a b f = false.
 
-(* REFUTED on the faithful model: the `closed` flag of the session is tested and set by Close with no lock
-   (before the row-lock repairs of /repo the witness was LastSeen, written under the session READ lock) *)
-Lemma lockset_refuted : exists a b f, concurrent_allowed a b = true /\ racyb a b f = true.
-Proof. exists SessClose, SessClose, FSessClosed. vm_compute. split; reflexivity. Qed.
-
-(* the same refutation as an execution: a reachable state in which one Close is about to write and another
-   about to read Session.closed, holding no lock *)
 Definition next_access (t : thread op) : option (loc * bool) :=
   match rest op t with
   | Rd _ x :: _ => Some (x, false)
   | Wr _ x :: _ => Some (x, true)
   | _ => None
   end.
-Definition race_stateb (s : state op) (i j : nat) : bool :=
-  negb (Nat.eqb i j) &&
-  match nth_error (threads op s) i, nth_error (threads op s) j with
-  | Some ti, Some tj =>
-      match next_access ti, next_access tj with
-      | Some (x, w1), Some (y, w2) => loc_eqb x y && (w1 || w2)
-      | _, _ => false
-      end
-  | _, _ => false
-  end.
-Definition race_init := init op template [(SessClose, [1]); (SessClose, [1])].
-Definition race_witness := run op template race_init [0; 0].
-Lemma race_state_reachable :
-  reachable op template race_init race_witness /\ race_stateb race_witness 0 1 = true.
-Proof. split; [apply run_reachable; apply reach_refl | vm_compute; reflexivity]. Qed.
 
-(* PARTIAL = exact: for operations allowed to overlap, the unprotected conflicts of the model are exactly the
-   recorded keys; every other (pair, field) is protected by a common lock held exclusively by one side *)
+(* EXACT: for operations allowed to overlap, the unprotected conflicts of the model are exactly the recorded
+   keys (Model/LocksKnown.v — EMPTY since the repairs of round 2: the refutations that earlier versions of
+   this file proved on the unrepaired code, LastSeen under the session read lock etc., no longer exist) *)
 Definition check_fields (al : bool) (rf : list field) (a b : op) (fields : list field) : bool :=
   forallb (fun f => Bool.eqb (al && existsb (field_eqb f) rf) (known_C09 (race_key a b f))) fields.
 (* (stated without a named constant: the kernel then never has to convert a closed [forallb] over the whole
@@ -180,7 +159,13 @@ Proof.
   destruct (concurrent_allowed a b), (racyb a b f); try discriminate H; auto.
 Qed.
 
-(* non-vacuity of the partial statement: a pair that conflicts and IS protected *)
+(* FULL STRENGTH on the model of the repaired library *)
+Lemma lockset_full : lockset_holds.
+Proof.
+  intros a b f Hc. apply lockset_partial; auto.
+Qed.
+
+(* non-vacuity: a pair that conflicts and IS protected *)
 Example lockset_partial_nonvacuous :
   concurrent_allowed Capture IsCaptured = true /\ known_C09 (race_key Capture IsCaptured FMacCaptured) = false /\
   existsb (fun a => existsb (fun b => conflictb a b) (taccs op [] (flat op (template IsCaptured))))
@@ -197,21 +182,7 @@ Definition no_send_on_closed_holds : Prop :=
   forall a b, concurrent_allowed a b = true ->
     predicted_send_on_closed a b = false /\ predicted_double_close a b = false.
 
-(* REFUTED, as an execution of the model: Close closes the notification channel, Notify then sends on it *)
-Definition soc_init := init op template [(SessClose, [1]); (Notify, [1])].
-Definition soc_witness := run op template soc_init (repeat 0 6 ++ repeat 1 40).
-Lemma send_on_closed_refuted :
-  reachable op template soc_init soc_witness /\ panicked op soc_witness = true.
-Proof. split; [apply run_reachable; apply reach_refl | vm_compute; reflexivity]. Qed.
-
-(* two overlapping Close calls: both pass the `closed` test, the second close panics *)
-Definition dc_init := init op template [(SessClose, [1]); (SessClose, [1])].
-Definition dc_witness := run op template dc_init [0; 0; 1; 1; 0; 0; 0; 0; 1; 1; 1].
-Lemma double_close_refuted :
-  reachable op template dc_init dc_witness /\ panicked op dc_witness = true.
-Proof. split; [apply run_reachable; apply reach_refl | vm_compute; reflexivity]. Qed.
-
-(* PARTIAL = exact: the send/close and close/close overlaps of the table are exactly the recorded panic keys *)
+(* EXACT: the send/close and close/close overlaps of the table are exactly the recorded panic keys (none) *)
 Lemma chan_exact_computed :
   forallb (fun a => forallb (fun b =>
      Bool.eqb (predicted_send_on_closed a b) (known_C09 ("panic:" ++ pair_name a b ++ ":send-on-closed-channel")) &&
@@ -231,7 +202,20 @@ Proof.
   destruct (predicted_send_on_closed a b), (predicted_double_close a b); try discriminate; auto.
 Qed.
 
-(* the semantic core of the partial statement: a send can only panic on a channel somebody closed *)
+Lemma no_send_on_closed_full : no_send_on_closed_holds.
+Proof.
+  intros a b _. apply no_send_on_closed_partial; reflexivity.
+Qed.
+
+(* every close of a channel in the table happens after the atomic test-and-set of the channel's flag, every
+   send is a guarded non-blocking send testing that flag: the reason why the two predictions are empty *)
+Lemma closes_are_once_guarded :
+  forallb (fun o => forallb (fun c =>
+     negb (closes op (template o) c) || close_after_once op (template o) c (flag_of_chan c)) all_chans_l) all_ops = true
+  /\ forallb (fun o => forallb (fun c => negb (sends op (template o) c)) all_chans_l) all_ops = true.
+Proof. vm_compute. split; reflexivity. Qed.
+
+(* the semantic core: a send can only panic on a channel somebody closed *)
 Lemma send_panics_only_if_closed : forall s i s',
   step op template s i = Some s' -> panicked op s = false -> panicked op s' = true ->
   exists t c r, nth_error (threads op s) i = Some t /\
@@ -310,7 +294,7 @@ Lemma closers_establish :
   forallb (fun o =>
     match stop_chan o with Some c => closes op (template (closer o)) c | None => true end &&
     match stop_flag o with
-    | Some f => existsb (fun a => match a with TSetFlag f' => field_eqb f f' | _ => false end) (flat op (template (closer o)))
+    | Some f => existsb (fun a => match a with TSetFlag f' | TOnce f' => field_eqb f f' | _ => false end) (flat op (template (closer o)))
     | None => true
     end) loops = true.
 Proof. vm_compute. reflexivity. Qed.
